@@ -337,6 +337,11 @@ class Result:
         self.tier = tier
         self.seed = seed
         self.t0 = time.time()
+        # replay files of earlier runs of this property are stale
+        if os.path.isdir(REPLAYS):
+            for f in os.listdir(REPLAYS):
+                if f.startswith(pid + "_"):
+                    os.remove(os.path.join(REPLAYS, f))
         self.violations = []      # list of dict(replay=..., what=..., no_input=bool)
         self.known = []           # list of strings
         self.cov = {"evaluations": 0, "distinct_nontrivial": 0, "rule": "", "samples": [],
